@@ -144,3 +144,34 @@ def reportedOf (p : Bytes) : Reported :=
     outdoorDigit := (byteAt p 15 >>> 4).toNat }
 
 end Msmart.Spec
+
+namespace Msmart.Spec
+
+def fl (b : Bool) (v : UInt8) : UInt8 := if b then v else 0
+
+/-- the status payload (0xC0, 24 bytes incl. the trailing message id) a device in state `s`
+    reports; `display` on/off, raw sensor bytes and tenths digits, filter flag and message id are
+    the remaining reportable items.  Setpoints 17..30 °C use the primary code, others the alternate. -/
+def statusPayload (s : DevState) (displayOn filterAlert : Bool) (indoorRaw outdoorRaw digits msgId : UInt8) : Bytes :=
+  [0xC0,
+   fl s.power 0x01,
+   ((s.mode % 8) * 32).toUInt8 ||| (if 34 ≤ s.tempHalf ∧ s.tempHalf ≤ 61 then (s.tempHalf / 2 - 16).toUInt8 else 0)
+     ||| fl (s.tempHalf % 2 = 1) 0x10,
+   s.fan.toUInt8,
+   0x7F, 0x7F, 0x00,
+   0x30 ||| (s.swing % 16).toUInt8,
+   fl s.followMe 0x80 ||| fl (s.aux = 2) 0x40,
+   fl s.eco 0x10 ||| fl s.purifier 0x20 ||| fl (s.aux = 1) 0x08,
+   fl s.sleep 0x01 ||| fl s.turbo 0x02 ||| fl s.fahrenheit 0x04,
+   indoorRaw, outdoorRaw,
+   (if 34 ≤ s.tempHalf ∧ s.tempHalf ≤ 61 then 0 else (s.tempHalf / 2 - 12).toUInt8) ||| fl filterAlert 0x20,
+   (if displayOn then 0x00 else 0x70),
+   digits,
+   0, 0, 0,
+   (s.humidity % 128).toUInt8,
+   0,
+   fl s.freeze 0x80,
+   0,
+   msgId]
+
+end Msmart.Spec
